@@ -866,6 +866,7 @@ def check_spherical(fx, R, S):
         R.used(fh)
         _spherical_back(fx, R, S, rd, fh, sp.ImmutableMatrix(list(want) + [1]), want, r, a, e, '/homogeneous')
     check_scalar_transforms(fx, R, S)
+    check_point_transforms(fx, R, S)
 
 
 def check_scalar_transforms(fx, R, S):
@@ -915,6 +916,64 @@ def check_scalar_transforms(fx, R, S):
                 R.undecided('R6', inst, unknown)
             else:
                 R.holds('R6', inst, 'returns the coordinate it is named after on %d witness points' % len(wit3), fx.rel(f['loc']), 'E-ORD')
+
+
+def check_point_transforms(fx, R, S):
+    """R6: the POINT overloads of SphericalTransform / PolarTransform (azimut / range / elevation of a Cartesian or homogeneous point), read on witness points: they must return the coordinate they are named
+    after (the conversions and the scalar overloads are judged separately; these are public entry points of their own)."""
+    import re
+    rr, aa, ee = sp.Rational(7, 4), sp.Rational(-11, 10), sp.Rational(6, 5)
+    wit3 = [(rr, aa, ee), (sp.Rational(1, 10 ** 5), sp.Rational(5, 2), sp.Rational(1, 3)), (sp.Integer(10 ** 5), sp.Rational(-3, 1), sp.Rational(29, 10))]
+    n = 0
+    for cls, dim in (('SphericalTransform', 3), ('PolarTransform', 2)):
+        fns_ = [f for f in fx.functions.values() if f['q'].startswith(NS + cls + '::') and f.get('body') is not None and len(f.get('params', [])) == 1
+                and (f['params'][0].get('t') or {}).get('c') == 'rec' and f['name'] in ('azimut', 'range', 'elevation')]
+        for f in sorted(fns_, key=lambda f: (f['name'], f['sig'])):
+            ts = f['params'][0]['t']['s']
+            if ('<%s' % S) not in ts and ('<%s>' % S) not in f['q']:
+                continue
+            mm = re.search(r'Matrix<[a-z ]+, (\d), 1', ts)
+            hh = re.search(r'HomogeneousCoordinates(\d)<', ts)
+            size = int(mm.group(1)) if mm else int(hh.group(1)) + 1 if hh else None
+            if size is None or size not in (dim, dim + 1):
+                continue
+            R.used(f)
+            n += 1
+            inst = '%s::%s(%s)' % (cls, f['name'], ts.replace('const ', '').replace('romea::core::', '').rstrip(' &'))
+            bad = unknown = None
+            for (r_, a_, e_) in wit3:
+                if dim == 3:
+                    pt = [r_ * sp.cos(a_) * sp.sin(e_), r_ * sp.sin(a_) * sp.sin(e_), r_ * sp.cos(e_)]
+                    env = {'range': r_, 'azimut': a_, 'elevation': e_}
+                else:
+                    pt = [r_ * sp.cos(a_), r_ * sp.sin(a_)]
+                    env = {'range': r_, 'azimut': a_}
+                if size == dim + 1:
+                    pt = pt + [sp.Integer(1)]
+                try:
+                    sts = sym.Reader(fx, call_hook=mat.hook, member_hook=mat.member_hook).run(f, args=[sp.ImmutableMatrix(pt)])
+                except sym.Unsupported as u:
+                    unknown = str(u)
+                    break
+                if len(sts) != 1 or not isinstance(sts[0].ret, sp.Basic) or sts[0].ret.atoms(sp.core.function.AppliedUndef):
+                    unknown = 'result not readable'
+                    break
+                try:
+                    got, wantv = sp.N(sts[0].ret, 30), sp.N(env[f['name']], 30)
+                    d = sp.N(sp.Abs(sp.sin((got - wantv) / 2)) if f['name'] in ('azimut', 'elevation') else sp.Abs(got - wantv) / (sp.Abs(wantv) + 1), 20)
+                except Exception:
+                    unknown = 'not evaluable on the witness point'
+                    break
+                if not (d.is_real and d < sp.Float('1e-12')):
+                    bad = bad or (tuple(sp.N(v_, 6) for v_ in pt), got, wantv)
+            if bad:
+                R.violated('R6', '%s::%s(point):value' % (cls, f['name']), 'for the point %s, %s() returns %s; the %s of that point is %s [%s]' % (
+                    bad[0], f['name'], sp.N(bad[1], 8), f['name'], sp.N(bad[2], 8), inst), fx.rel(f['loc']), 'E-ORD')
+            elif unknown:
+                R.undecided('R6', inst, unknown)
+            else:
+                R.holds('R6', inst, 'returns the coordinate it is named after on %d witness points' % len(wit3), fx.rel(f['loc']), 'E-ORD')
+    return n
 
 
 def _spherical_back(fx, R, S, rd, ft, arg, want, r, a, e, tag):
